@@ -324,6 +324,9 @@ def select_cases(cases: list[dict[str, Any]], tier: str, seed: int) -> tuple[lis
     for cs in a + b:
         if cs["c"]["how"] == "Unexpected" and cs["id"] % 2:
             cs["flavour"] = "chained"   # RuntimeError raised while handling / chained to a ConnectionError
+        if (cs["c"]["kind"] == "Script" and cs["c"]["art"] and cs["c"]["how"] != "CtrlC" and cs["id"] % 3 == 1
+                and cs["c"]["point"] in ("Main", "Teardown", "PostHook", "DbClose")):
+            cs["nested"] = True   # main() runs a second command (own artifacts dir, own log) like `script rerun`
         if cs["c"]["how"] == "DbFails" and cs["c"]["point"] == "DbOpen":
             cs["dbfail"] = ("blocked", "not-sqlite", "other-version")[cs["id"] % 3]
     if tier == "thorough":
